@@ -23,6 +23,8 @@ struct IpOutcome { int kind; unsigned long k; };
 static bool ipSendScripted = false;      // false: pass through
 static IpOutcome ipSendQueue[64];
 static int ipSendQueueLen = 0, ipSendQueuePos = 0;
+static bool ipSendHaveDefault = false;   // outcome used when the queue is exhausted
+static IpOutcome ipSendDefault = { IP_ALL, 0 };
 static char ipSendLog[4096];
 static size_t ipSendLogLen = 0;
 static bool ipEnvFail = false;           // the kernel did not behave as the script assumes
@@ -66,6 +68,7 @@ extern "C" ssize_t send(int fd, const void* buf, size_t n, int flags)
     return syscall(SYS_sendto, fd, buf, n, flags, 0, 0);
   IpOutcome o;
   if(ipSendQueuePos < ipSendQueueLen) o = ipSendQueue[ipSendQueuePos++];
+  else if(ipSendHaveDefault) o = ipSendDefault;
   else { ipFail("send without scripted outcome"); o.kind = IP_ALL; o.k = 0; }
   size_t k = n;
   switch(o.kind)
@@ -76,8 +79,12 @@ extern "C" ssize_t send(int fd, const void* buf, size_t n, int flags)
   case IP_HALF: k = n <= 1 ? n : n / 2; break;
   default: k = n; break;
   }
-  if(k < n) ++ipFaultPartial; else ++ipFaultFull;
   ssize_t r = syscall(SYS_sendto, fd, buf, k, flags, 0, 0);
+  if(r < 0 && errno != EAGAIN && errno != EWOULDBLOCK)
+  { // the kernel itself refuses (peer gone): an error outcome
+    ++ipFaultErr; ipSendLogAdd(n, "err", 0); return -1;
+  }
+  if(k < n) ++ipFaultPartial; else ++ipFaultFull;
   if(r != (ssize_t)k) ipFail("kernel send accepted fewer bytes than scripted");
   ipSendLogAdd(n, 0, (long)r);
   return r;
@@ -86,11 +93,13 @@ extern "C" ssize_t send(int fd, const void* buf, size_t n, int flags)
 // ---- epoll_ctl: interest per descriptor ---------------------------------------------------
 enum { IP_MAXFD = 4096 };
 static int ipMask[IP_MAXFD];      // -1 = not registered, else the epoll event mask
+static void* ipPtr[IP_MAXFD];     // the data.ptr registered with the descriptor
+static int ipLastAddFd = -1;      // descriptor of the most recent EPOLL_CTL_ADD
 static bool ipMaskInit = false;
 
 static inline void ipMaskReset()
 {
-  for(int i = 0; i < IP_MAXFD; ++i) ipMask[i] = -1;
+  for(int i = 0; i < IP_MAXFD; ++i) { ipMask[i] = -1; ipPtr[i] = 0; }
   ipMaskInit = true;
 }
 
@@ -100,8 +109,13 @@ extern "C" int epoll_ctl(int epfd, int op, int fd, struct epoll_event* ev)
   int r = (int)syscall(SYS_epoll_ctl, epfd, op, fd, ev);
   if(r == 0 && fd >= 0 && fd < IP_MAXFD)
   {
-    if(op == EPOLL_CTL_DEL) ipMask[fd] = -1;
-    else ipMask[fd] = (int)ev->events;
+    if(op == EPOLL_CTL_DEL) { ipMask[fd] = -1; ipPtr[fd] = 0; }
+    else
+    {
+      ipMask[fd] = (int)ev->events;
+      ipPtr[fd] = ev->data.ptr;
+      if(op == EPOLL_CTL_ADD) ipLastAddFd = fd;
+    }
   }
   return r;
 }
@@ -112,6 +126,14 @@ static inline const char* ipInterest(int fd)
   if(fd < 0 || fd >= IP_MAXFD || ipMask[fd] < 0) return "none";
   bool r = (ipMask[fd] & EPOLLIN) != 0, w = (ipMask[fd] & EPOLLOUT) != 0;
   return r ? (w ? "rw" : "r") : (w ? "w" : "-");
+}
+
+static inline const char* ipInterestIO(int fd)
+{
+  if(!ipMaskInit) ipMaskReset();
+  if(fd < 0 || fd >= IP_MAXFD || ipMask[fd] < 0) return "none";
+  bool r = (ipMask[fd] & EPOLLIN) != 0, w = (ipMask[fd] & EPOLLOUT) != 0;
+  return r ? (w ? "io" : "i") : (w ? "o" : "-");
 }
 
 // ---- epoll_wait ---------------------------------------------------------------------------
